@@ -1266,7 +1266,13 @@ class Model:
         return n
 
     def _v_transfer(self, st, states, e):
-        return self._v_collect(st, states, ["collect", True])
+        # data of the visible columns in a fresh (ungrouped) table that answers to the
+        # references of the table it was made from; hidden columns are gone
+        n = st.copy()
+        vis = set(n.visible)
+        n.cols = {c: nm for c, nm in n.cols.items() if c in vis}
+        n.group = []
+        return n
 
     # -- join ----------------------------------------------------------------------------
     def _v_join(self, st, states, e):
